@@ -3478,7 +3478,8 @@ theorem C14_src_shapes :
     Generated.AsyncSkel.runCleanups = refCleanups ∧ Generated.AsyncSkel.runCleanupsIsInlineCallbacks = true ∧
     Generated.AsyncSkel.runUser = refRunUser ∧ Generated.AsyncSkel.logUserException = .raisesAndReportsExcInfo ∧
     Generated.AsyncSkel.flushLoggedErrors = .flushesGlobalObserver ∧
-    Generated.AsyncSkel.assertFailsWith = .successRaisesFailureTrapsGiven := by decide
+    Generated.AsyncSkel.assertFailsWith = .successRaisesFailureTrapsGiven ∧
+    Generated.AsyncSkel.errorObserverSetUp = .installedThroughLegacyWrapper := by decide
 
 /-- `_blocking_run_deferred` and `_run_core` as found in the source are the model's `account`: NoResultError → reported +
 `result.stop()`; TimeoutError → reported; then the logged errors, the unhandled errors in Deferreds (only when `Spinner.run`
